@@ -684,6 +684,9 @@ func returnsOf(fn *ssa.Function) []*ssa.Return {
 	var out []*ssa.Return
 	eachInstr(fn, func(in ssa.Instruction) {
 		if r, ok := in.(*ssa.Return); ok {
+			if fn.Recover != nil && r.Block() == fn.Recover {
+				return // the recover block's return is not a normal exit
+			}
 			out = append(out, r)
 		}
 	})
@@ -746,6 +749,21 @@ func retResults(ret *ssa.Return) []ssa.Value {
 	out := make([]ssa.Value, len(ret.Results))
 	for i := range ret.Results {
 		out[i] = retResult(ret, i)
+	}
+	return out
+}
+
+
+// edgeFacts: facts that hold when control flows along the edge pred→succ: the facts dominating pred plus, when pred ends
+// in an If with distinct successors, that If's condition with the polarity of the edge.
+func edgeFacts(pred, succ *ssa.BasicBlock) []condFact {
+	out := condFacts(pred)
+	if ifi, ok := lastInstr(pred).(*ssa.If); ok && len(pred.Succs) == 2 && pred.Succs[0] != pred.Succs[1] {
+		if pred.Succs[0] == succ {
+			out = append(out, condFact{ifi.Cond, true, ifi})
+		} else if pred.Succs[1] == succ {
+			out = append(out, condFact{ifi.Cond, false, ifi})
+		}
 	}
 	return out
 }
